@@ -34,6 +34,11 @@ CHECKS = {
             "TLC checks printer/parser are inverse on all explored states; for every state of families and recorded games the exported text "
             "must equal FenFields(snapshot), be a well-formed six-field FEN, parse to the position, and its re-import must give the same "
             "position, hash and legal moves.", "6-C11", GAME_NOTE),
+    "C12": ("MoveText relation in TraceGame.tla (PosMoves action) judging the real binary's `position ... moves` on ALL 20480 move-shaped strings per position; text round trip on recorded games",
+            "TLC proves move text injective on the explored reference states; for every sampled position (roots, FIDE-style FENs, TLC family "
+            "members, game states reached through a move prefix) every string of move shape is sent to the real binary and TLC requires "
+            "accepted <=> text of a legal move, accepted => the shown position is Apply(pos, m), refused => unchanged.", "6-C12",
+            "Upper-case promotion letters and over-long strings are outside the universe (grey). " + GAME_NOTE),
     "C16": ("Eval.tla piece-square sum (tables dumped from the compiled constants) judged on every observation; mirrored twin game",
             "Every observation's score must be the sum under one king table; a colour-mirrored twin game is played move for move and must "
             "have the negated score; TLC checks the mirror law on the reference model.", "6-C16", GAME_NOTE),
